@@ -16,10 +16,10 @@ func init() {
 		ID: "C15",
 		Explanation: "Structural rules over string.go (engines E7/E4): AG5 ToLower/ToUpper/Capitalize range over the string rune by rune and append, for every rune, exactly the result of unicode.ToLower / unicode.ToUpper of that rune (Capitalize: upper at offset 0, lower elsewhere) and convert the rune slice back; SnakeCase and KebabCase are the same call differing only in the delimiter constant; " +
 			"Wrap writes token, payload, token in this order and WrapAllRune does so around every rune; ReverseStr converts to []rune, only swaps, and converts back (PV4); the Pad functions return the input unchanged under size <= len(str) and otherwise concatenate pad and input in the documented order with the pad cut to exactly size-len(str) bytes (left/right halves for Pad); " +
-			"SplitAtIndex returns on every path a two-element slice whose parts are (\"\", str), (str, \"\") or the complementary cuts str[:x], str[x:]; Unwrap strips exactly len(token) bytes from both ends and only under HasPrefix, HasSuffix and len(str) >= 2*len(token); Substr's final slice is dominated by the range tests of offset and end; GS1/GS2 hygiene. " +
-			"Decides these necessary conditions; Substr's offset arithmetic, the availability of enough pad bytes and the regexp-based case converters are not decided.",
+			"SplitAtIndex returns on every path a two-element slice whose parts are (\"\", str), (str, \"\") or the complementary cuts str[:x], str[x:]; Unwrap strips exactly len(token) bytes from both ends and only under HasPrefix, HasSuffix and len(str) >= 2*len(token); BD2 Substr: premise (loop-free; integers combined by + - and comparisons; affine forms of (len, offset, length) with small coefficients at every comparison and slice bound) decided on the SSA of Substr, Abs, InRange, Null; under it the outcome (the byte range returned, the empty string, or slice bounds outside 0 <= lo <= hi <= len = panic) is tabulated over len 0..6 x offset, length -9..9 (thorough: doubled) against the statement's selection rule; GS1/GS2 hygiene. " +
+			"Decides these necessary conditions; the availability of enough pad bytes and the regexp-based case converters are not decided.",
 		Assumptions: []string{"go/ssa faithful to the source", "contracts of unicode.ToLower/ToUpper, strings.HasPrefix/HasSuffix/Repeat, strings.Builder"},
-		NotDecided:  []string{"Substr's PHP-style offset/length arithmetic", "that the repeated pad token is long enough for the cut (empty token panics)", "CamelCase/SnakeCase/KebabCase word splitting (regular expressions)"},
+		NotDecided:  []string{"integer overflow of len+offset / offset+length in Substr at the extremes of int", "that the repeated pad token is long enough for the cut (empty token panics)", "CamelCase/SnakeCase/KebabCase word splitting (regular expressions)"},
 		Run:         runC15,
 	})
 }
@@ -439,36 +439,10 @@ func runC15(p *core.Program, r *core.Report) {
 		}
 	}
 
-	// ---------------- Substr: final slice under the range tests
-	if fn := c.fn("gogu.Substr"); fn != nil {
-		str := ssa.Value(fn.Params[0])
-		inRange := p.Func("gogu.InRange")
-		n := 0
-		for _, in := range path.Instrs(fn) {
-			sl, ok := in.(*ssa.Slice)
-			if !ok || sl.X != str {
-				continue
-			}
-			n++
-			guarded := func(v ssa.Value) bool {
-				if v == nil {
-					return false
-				}
-				return boolGuard(fn, sl.Block(), func(cv ssa.Value) bool {
-					call, ok := cv.(*ssa.Call)
-					if !ok || inRange == nil || path.StaticCallee(call) != inRange {
-						return false
-					}
-					a := call.Call.Args
-					k, isK := path.IntConst(a[1])
-					x := newPathCtx(p)
-					return sameValueOrigins(a[0], v) && isK && k == 0 && x.path(a[2]) == "len(str)"
-				}, true)
-			}
-			c.ob("PT3", "gogu.Substr", "slice bounds tested to lie in [0, len(str)]", p.InstrPos(sl), guarded(sl.Low) && guarded(sl.High), "the final str[offset:end] is not dominated by InRange(offset, 0, len(str)) and InRange(end, 0, len(str)): out-of-range selections panic instead of yielding the empty string")
-		}
-		c.ob("PT3", "gogu.Substr", "one slice site", c.fpos(fn), n == 1, "Substr must slice the string at exactly one site")
-	}
+	checkSubstr(c, c.r.Tier == "thorough")
+	// (the former PT3 rule "the final slice is dominated by InRange(offset, 0, len) and
+	// InRange(end, 0, len)" is subsumed by the table: an out-of-range slice bound is a
+	// panic outcome there, and the table does not care how the range tests are spelt)
 }
 
 // sameValueOrigins: a and b denote the same value (same SSA value, or phis with
